@@ -36,18 +36,23 @@ CHECKS = {
     "C08": dict(level="proof", technique="contract-based deductive verification of the seeded getitem paths (generator key seed+idx reaches every KD transform, loops over view configs / transform lists) + frame obligations (no in-place write to dataset values, names bound) + bounded stand-in with real DataLoader workers",
                 text="TransformWrapperBase._getitem, KDMultiViewWrapper.getitem_x, SemsegTransformWrapper.getitem_xsemseg: with a seed every KD transform receives default_rng(seed + idx) before it is applied, on every path; "
                      "no in-place tensor operation on values obtained from the wrapped dataset anywhere in the sample-wrapper packages",
-                note=TRUST + "; relies on C07 for what a transform does with the injected generator; KDMixWrapper internals and the ready-made pipelines are bounded only"),
+                note=TRUST + "; relies on C07 for what a transform does with the injected generator; every public accessor of the transform wrappers (incl. the fused x-class path) is proved to go through the seeded _getitem exactly once; KDMixWrapper's generator key and the ready-made pipelines are bounded only"),
     "C09": dict(level="proof", technique="contract-based deductive verification of every worker hook (reach over children / owned transforms / collators by loop invariants, AST->SMT) + class-model frame obligations + simulated workers",
                 text="worker_init_fn of KDWrapper / KDSubset / KDConcatDataset / ModeWrapper / interleaved concat dataset reaches every child; KDDataset re-seeds every registered collator; a transform's hook rebinds its generator from the "
                      "worker's global RNG and (through set_rng, C07) every member at any depth; every sample wrapper that owns transforms has a hook reaching them. The statistical clause ('never replay one another's stream, not even in part') is not applicable and says so in the evidence",
                 note=TRUST + "; torch seeds each worker's global numpy RNG (DataLoader contract)"),
-    "C10": dict(level="exploration", technique="run-time contract (the property's postcondition) on the real KDMixCollator.collate over id-encoded batches, labelled bounded; plus contract-based deductive verification of the partner sequence of shuffle() per mode and of the constructor's probability split (AST->SMT), and a frame obligation (one index for operation, box and weight in the per-sample loop)",
-                text="bounded: batch sizes, shapes, mixup/cutmix splits, apply/lambda/shuffle modes and seeds stated in the evidence; the proved lemmas do not by themselves imply the property "
-                     "(per-pixel tensor algebra with aliasing is outside the verified subset), so the claim is exploration, not proof",
-                note=TRUST + "; bounded part: only the enumerated configurations"),
-    "C11": dict(level="exploration", technique="run-time contract (the property's postcondition) on the real KDMixWrapper.__getitem__ over id-encoded datasets, labelled bounded; frame obligations on the AST (one partner draw and one weight per item, used for both data and label; no in-place write to the dataset's values)",
-                text="bounded: dataset sizes, shapes, p / mode settings and seeds stated in the evidence; the frame obligations are deductive but do not by themselves imply the convex-combination clause",
-                note=TRUST + "; bounded part: only the enumerated configurations"),
+    "C10": dict(level="proof", technique="contract-based deductive verification of KDMixCollator.collate (both lambda modes), get_random_bbox and shuffle over batch tensors with opaque per-sample rows and an uninterpreted elementwise algebra (ghost version map for in-place operations and aliasing, row views, loop invariant over the per-sample loop, elementwise real / integer tensor arithmetic; AST->SMT, z3+cvc5) + frame obligation + run-time contract on the real collator, labelled bounded",
+                text="for every batch size, shuffle mode and probability split: label row i == w_i*y_i + (1-w_i)*y_p(i) and image row i == w_i*x_i + (1-w_i)*x_p(i) (mixup) or x_i with one box of x_p(i) pasted (cutmix) with the SAME partner p(i) "
+                     "(roll / flip / the one permutation drawn, self for a batch of one) and the same weight; the box lies inside the image and the weight handed back is 1 - box area / image area (hence in [0,1]); "
+                     "the context's lambda is the weight object used; per-sample mode: sample i's own flag, box and weight (loop invariant; partner rows of the clone untouched until used, by injectivity of p). "
+                     "Binary (1-d) labels, numeric consequences (rows sum to one), pixel-level box content and the ModeWrapper item plumbing are bounded only",
+                note=TRUST + "; tensor `*` / `+` / box paste are uninterpreted row operations (no algebraic law used); ModeWrapper.has_item / get_item / set_item enter as assumed contracts (image (N,C,H,W), one-hot labels (N,classes)); "
+                             "torch.clamp / stack / where / empty / floor / sqrt >= 0 / .type(long) truncation as in pyvc/libtensor.py"),
+    "C11": dict(level="proof", technique="contract-based deductive verification of KDMixWrapper.getitem_xclass over an uninterpreted elementwise tensor algebra (result terms compared with the specification term; witnesses = the function's own partner / weight locals; AST->SMT) + frame obligations on the AST + run-time contract on the real wrapper, labelled bounded",
+                text="for equal sample shapes (mixup_unify_shapes_mode None): the result is either (x_i, onehot(y_i)) or (lam*x_i + (1-lam)*x_j, lam*onehot(y_i) + (1-lam)*onehot(y_j)) with ONE partner j in [0, len) of the same dataset and ONE weight lam in [0, 1] "
+                     "used for data and label; a total probability >= 1 always mixes; one partner draw and one weight per request, no in-place write to dataset values (frame). "
+                     "The pad_or_cut_end shape unification, the numeric consequences (rows non-negative with sum one), cutmix (NotImplementedError) and the agreement of image-only / label-only / joint requests through ModeWrapper's fusion are bounded only",
+                note=TRUST + "; tensor `*` / `+` are uninterpreted (no algebraic law is used); to_one_hot_vector, getdim_class and the wrapped dataset (deterministic getitem_x / getitem_class) are assumed contracts"),
     "C12": dict(level="proof", technique="contract-based deductive verification (AST->SMT, z3+cvc5) over integer-sequence terms; frame check for rank independence; bounded oracle",
                 text="per-rank stream == strided slice of one global draw keyed by seed+epoch, length == len(sampler), repeats occupy consecutive slots: "
                      "postconditions at the yield sites of DistributedSampler/RandomSampler/WeightedSampler.__iter__, lengths of ClassBalancedSampler, all discharged; "
